@@ -59,6 +59,11 @@ def install(M):
         return ok(P.state['va'])
 
     def split(P, c, args, dt):
+        ps = args[4] if len(args) > 4 else None
+        if ps is not None and getattr(ps, 'var', None) == 'Some':
+            P.events.append(('split_pathspecs', sorted(bytes(concrete_bytes(as_bytes(k))).decode() for k, _ in tgt(ps.f[0]).ent)))
+        else:
+            P.events.append(('split_pathspecs', None))
         return ok(tup(clone_val(P, P.state['log']), mk_struct(P.M, INIT, files=MapV('hash', [], 'map'), prompts=MapV('hash', [], 'map'))))
 
     def cfg_get(P, c, args, dt):
@@ -106,6 +111,15 @@ def install(M):
     M.env['authorship::secrets::redact_secrets_from_prompts'] = redact
     M.env[PC + '::enqueue_prompt_messages_to_cas'] = enqueue
     M.env['git::refs::notes_add'] = notes_add
+
+    def list_commit_files(P, c, args, dt):
+        touched = set(P.state.get('commit_files', []))
+        flt = args[2]
+        if getattr(flt, 'var', None) == 'Some':
+            keep = {bytes(concrete_bytes(as_bytes(k))).decode() for k, _ in tgt(flt.f[0]).ent}
+            touched &= keep
+        return ok(MapV('hash', [[pystring(f), None] for f in sorted(touched)], 'set'))
+    M.env['git::repository::Repository::list_commit_files'] = list_commit_files
 
     # K2: glob matching = arbitrary, per-path consistent predicate; remotes = harness answer
     def matches(P, c, args, dt):
